@@ -97,6 +97,12 @@ def _package_constant(name):
         for st in m.tree.body:
             if isinstance(st, ast.Assign) and any(isinstance(t, ast.Name) and t.id == name for t in st.targets):
                 found.append(st.value)
+            elif isinstance(st, ast.Try):
+                # `try: from x import y; NAME = ... except ImportError: NAME = ...`: the definition of the present
+                # interpreter version is the one in the try body
+                for s2 in st.body:
+                    if isinstance(s2, ast.Assign) and any(isinstance(t, ast.Name) and t.id == name for t in s2.targets):
+                        found.append(s2.value)
     if len(found) > 1 and len({ast.dump(f) for f in found}) == 1:
         # the same definition in several modules (each has its own serial counter): any of them stands for it
         return found[0]
